@@ -147,9 +147,11 @@ def func_family():
         exprs.append(f"Mod({a1}, {a2})")
         exprs.append(f"y*Mod({a1}, {a2}) + 1")
     # every precedence class in both argument positions of the binary function
-    ARGS = ["x", "-x", "x + y", "x - 5", "2*b", "x*y", "b/a", "x/2", "b**2", "(x + 1)*(y + 2)", "abs(y) + 1", "t"]
+    # (dividend and divisor share no symbol: sympy factors a common symbol out of Mod, which needs
+    # floor reasoning over products that z3 does not decide within the budget)
+    ARGS = ["x", "-x", "x + y", "x - 5", "2*c", "x*y", "c/y", "x/2", "c**2", "(x + 1)*(y + 2)", "abs(y) + 1", "t"]
     for a1 in ARGS:
-        for a2 in ["b", "2*b", "b/a", "b + 1", "-b", "b**2", "a*b*2", "2.5", "x + 3"]:
+        for a2 in ["b", "2*b", "b/a", "1/a", "1/(a + 1)", "b + 1", "-b", "b**2", "a*b*2", "2.5", "z + 3"]:
             exprs.append(f"Mod({a1}, {a2})")
     exprs += ["floor(x) + floor(-x)", "floor(x/2)*2", "abs(x) - abs(-x)", "abs(x*y) - abs(x)*abs(y)",
               "sqrt(x*x)", "exp(x)*exp(-x)", "log(exp(x))", "exp(log(a))", "sin(x)**2 + cos(x)**2",
